@@ -355,7 +355,8 @@ class Contract:
     kind = 'contract'
 
     def __init__(self, target, prop, args, requires=(), ensures=(),
-                 raises=None, warns=None, shapes=None, label=None,
+                 raises=None, warns=None, shapes=None, shapes_thorough=None,
+                 label=None,
                  may_raise=(), returns=None, modular=False, note=None,
                  cross_check=True, frame=None):
         self.target = target
@@ -366,6 +367,7 @@ class Contract:
         self.raises = dict(raises or {})
         self.warns = warns
         self.shapes = shapes or {}
+        self.shapes_thorough = shapes_thorough
         self.label = label
         self.may_raise = tuple(may_raise)
         self.returns = returns
@@ -383,7 +385,7 @@ class Lemma:
     kind = 'lemma'
 
     def __init__(self, name, prop, forall, given=(), prove=(), shapes=None,
-                 note=None):
+                 shapes_thorough=None, note=None):
         self.name = name
         self.prop = prop
         self.forall = forall
@@ -391,6 +393,7 @@ class Lemma:
         self.prove = [_lab(e, i) for i, e in enumerate(
             prove if isinstance(prove, (list, tuple)) else [prove])]
         self.shapes = shapes or {}
+        self.shapes_thorough = shapes_thorough
         self.note = note
 
 
